@@ -163,11 +163,27 @@ func vsParseResponses(w []byte) (rs []vsResp, ok bool) {
 func vhC14ConnState() {
 	nreq := vLen("requests", 0, vParam("requests", 2))
 	c := &vsSegConn{}
+	oneRead := nreq > 1 && vBool("pipelinedInOneRead")
+	var all []byte
 	for i := 0; i < nreq; i++ {
-		// the malformed request is left out here: its error response takes the
-		// default Date header, whose once-per-second refresher goroutine never
-		// terminates on the engine's virtual clock
-		c.segs = append(c.segs, []byte(vsRequests[vChoose("req", len(vsRequests)-1)]))
+		// the last request may be malformed or break off inside its head
+		kinds := len(vsRequests) - 1
+		if i == nreq-1 {
+			kinds = len(vsRequests) + 1
+		}
+		k := vChoose("req", kinds)
+		r := "GET /trunc HTTP/1.1\r\nHo"
+		if k < len(vsRequests) {
+			r = vsRequests[k]
+		}
+		if oneRead {
+			all = append(all, r...)
+		} else {
+			c.segs = append(c.segs, []byte(r))
+		}
+	}
+	if oneRead {
+		c.segs = [][]byte{all}
 	}
 	hijackAt := -1
 	if nreq > 0 && vBool("hijack") {
@@ -190,6 +206,9 @@ func vhC14ConnState() {
 			delivered := c.next
 			if c.off > 0 {
 				delivered++
+			}
+			if oneRead && delivered > 0 {
+				delivered = nreq // everything arrived with the first read
 			}
 			if delivered < na {
 				// listed finding: the first StateActive of a connection is
